@@ -2,6 +2,9 @@ import IoraModel.Lemmas.DnsSafe
 import IoraModel.Lemmas.DnsWork
 import IoraModel.Lemmas.DnsCache
 import IoraModel.Lemmas.DnsTransport
+import IoraModel.Lemmas.DnsSoa
+import IoraModel.Lemmas.DnsNaptr
+import IoraModel.Lemmas.DnsTcpHandle
 /-!
 # C19 — DNS messages decode exactly or are rejected; cached answers honour TTL
 
@@ -75,6 +78,11 @@ theorem N1_roundtrip (name w : Bytes) (h : encodeName name = .ok w) (pre post : 
 
 example : encodeName [119, 119, 119, 46, 97] = .ok [3, 119, 119, 119, 1, 97, 0] := rfl
 
+/-- generated-facts conformance (tripwire, `rfl`): `encodeName` tests the 255-octet limit AFTER the root label has been appended
+(the model's encoder is DEFINED from this fact; with the test inside the label loop the root octet is not counted, a
+256-octet name is emitted, and `N1_encodeName` / `N1_roundtrip` do not build) -/
+theorem N1_gen_encode_shape : Gen.Dns.encodeLimitCountsRoot = true := rfl
+
 /-- **N1q (query round trip).** Every query built by `buildQuery` parses back to its id, RD flag and question list (names
 normalised by dropping empty labels), with empty record sections.  The id is the caller's when it is non-zero; for `id = 0`
 the code draws one from `generateQueryId()` (an input `generated` of the model) and the round trip holds for that id. -/
@@ -111,6 +119,14 @@ not depend on the message (before the repair of FC19c it was bounded only by the
 by the message size). -/
 theorem N4_name_fuel (m : Bytes) (off : Nat) : decodeName m off ≠ .error .fuel :=
   decodeName_no_fuel m off
+
+/-- N3/N4 for the public `decodeNameWithLoopDetection` with ANY caller-supplied visited set: no out-of-range read, fuel never
+exhausted; and with the empty set it is `decodeName` -/
+theorem N4_name_visited_safe (m : Bytes) (off : Nat) (visited : List Nat) :
+    decodeNameVisited m off visited ≠ .error .oob ∧ decodeNameVisited m off visited ≠ .error .fuel :=
+  ⟨decodeGo_no_oob m _ _, decodeGo_fuel m _ _ (by simp [Gen.Dns.maxName]) (by simp) (pot_init m off)⟩
+
+theorem N4_name_visited_empty (m : Bytes) (off : Nat) : decodeNameVisited m off [] = decodeName m off := rfl
 
 theorem N4_name_iterations_constant (m : Bytes) : nameFuel m = 257 := nameFuel_const m
 
@@ -258,25 +274,36 @@ example :
     (N2_A_partial rr rfl rfl (by decide)).1⟩
 
 /-- **N2 (names inside RDATA, every compression layout).** If the RDATA (a slice of the message) holds at `rdOff` a well-formed
-name with labels `ls` that ends inside the RDATA, `decodeNameFromRdata` returns exactly it and the offset behind it.  The root
-name is covered when written as a root label (null MX of RFC 7505, SRV target `.`); excluded is only a POINTER to a root label. -/
+name with labels `ls` that ends inside the RDATA, `decodeNameFromRdata` returns exactly it and the offset behind it — with NO
+side condition on the layout: the root name written as a root label (null MX of RFC 7505, SRV target `.`) and the root name
+written as a POINTER to a root label, including a root label that is the very last byte of the message (refused before the
+repair of FC19f, whose guard asked for `pointer + 1 < messageSize`). -/
 theorem N2_rdata_name (m r : Bytes) (rdStart rdOff nx : Nat) (ls : List Bytes)
     (hr : r = slice m rdStart r.length) (hoff : rdOff < r.length)
-    (hd : WellFormedName m (rdStart + rdOff) ls (rdStart + nx)) (hnx : nx ≤ r.length)
-    (hne : ls ≠ [] ∨ m[rdStart + rdOff]? = some 0) :
+    (hd : WellFormedName m (rdStart + rdOff) ls (rdStart + nx)) (hnx : nx ≤ r.length) :
     rdataName m rdStart rdOff r = .ok (dottedName ls, nx) :=
-  rdataName_exact m r rdStart rdOff nx ls hr hoff hd hnx hne
+  rdataName_exact m r rdStart rdOff nx ls hr hoff hd hnx
 
 /-- non-vacuity: name `a` at 0, and RDATA `C0 00` at 3 -/
 example : rdataName [1, 97, 0, 192, 0] 3 0 [192, 0] = .ok (dottedName [[97]], 2) := by
   have h0 : DenotesH [1, 97, 0, 192, 0] 0 [[97]] 3 0 :=
     DenotesH.label (b := 1) (by decide) (by decide) (by decide) (by decide) (DenotesH.root (by decide))
   exact N2_rdata_name [1, 97, 0, 192, 0] [192, 0] 3 0 2 [[97]] (by decide) (by decide)
-    ⟨1, DenotesH.ptr (b := 192) (b2 := 0) (by decide) (by decide) (by decide) h0, by decide, by decide⟩ (by decide) (Or.inl (by decide))
+    ⟨1, DenotesH.ptr (b := 192) (b2 := 0) (by decide) (by decide) (by decide) h0, by decide, by decide⟩ (by decide)
+
+/-- non-vacuity, the FC19f shape: RDATA `C0 04` at 0 is a FORWARD pointer to the root label that is the LAST byte of the message -/
+example : rdataName [192, 4, 7, 7, 0] 0 0 [192, 4] = .ok (dottedName [], 2) :=
+  N2_rdata_name [192, 4, 7, 7, 0] [192, 4] 0 0 2 [] (by decide) (by decide)
+    ⟨1, DenotesH.ptr (b := 192) (b2 := 4) (by decide) (by decide) (by decide) (DenotesH.root (by decide)), by decide, by decide⟩ (by decide)
+
+/-- generated-facts conformance (tripwire, `rfl`): the direct-pointer branch of `decodeNameFromRdata` accepts every target
+inside the message (margin 0); on a tree with the old `pointer + 1 < messageSize` test this — and `N2_rdata_name` — do not build. -/
+theorem N2_gen_rdata_pointer : Gen.Dns.rdataPointerMargin = 0 := rfl
 
 /-- **N2 (typed records).** Exact typed decoding per record type: A and AAAA for arbitrary octets, TXT for arbitrary
 character strings, CNAME / PTR / MX / SRV with the embedded name compressed in any way (root target included when written as
-a root label); types without a typed parser (NS, OPT, unknown) yield no typed record. -/
+a root label or as a pointer to one), SOA with both names compressed in any way and arbitrary numbers; types without a typed
+parser (NS, OPT, unknown) yield no typed record. -/
 theorem N2_typed_a (m : Bytes) (rr : RR) (o : Nat) (ht : rr.type = 1) (hl : rr.rdata.length = 4) :
     typedSpec m (rr, o) = some (.a rr.name rr.rdata rr.ttl) := typed_a m rr o ht hl
 theorem N2_typed_aaaa (m : Bytes) (rr : RR) (o : Nat) (ht : rr.type = 28) (hl : rr.rdata.length = 16) :
@@ -284,23 +311,21 @@ theorem N2_typed_aaaa (m : Bytes) (rr : RR) (o : Nat) (ht : rr.type = 28) (hl : 
 theorem N2_typed_txt (m : Bytes) (rr : RR) (o : Nat) (ts : List Bytes) (ht : rr.type = 16) (h : ∀ t ∈ ts, t.length < 256)
     (hr : rr.rdata = encodeTxt ts) : typedSpec m (rr, o) = some (.txt rr.name ts rr.ttl) := typed_txt m rr o ts ht h hr
 theorem N2_typed_cname (m : Bytes) (rr : RR) (o : Nat) (ls : List Bytes) (ht : rr.type = 5)
-    (hr : rr.rdata = slice m o rr.rdata.length) (hd : WellFormedName m o ls (o + rr.rdata.length))
-    (hne : ls ≠ [] ∨ m[o]? = some 0) :
-    typedSpec m (rr, o) = some (.cname rr.name (dottedName ls) rr.ttl) := typed_cname m rr o ls ht hr hd hne
+    (hr : rr.rdata = slice m o rr.rdata.length) (hd : WellFormedName m o ls (o + rr.rdata.length)) :
+    typedSpec m (rr, o) = some (.cname rr.name (dottedName ls) rr.ttl) := typed_cname m rr o ls ht hr hd
 theorem N2_typed_ptr (m : Bytes) (rr : RR) (o : Nat) (ls : List Bytes) (ht : rr.type = 12)
-    (hr : rr.rdata = slice m o rr.rdata.length) (hd : WellFormedName m o ls (o + rr.rdata.length))
-    (hne : ls ≠ [] ∨ m[o]? = some 0) :
-    typedSpec m (rr, o) = some (.ptr rr.name (dottedName ls) rr.ttl) := typed_ptr m rr o ls ht hr hd hne
+    (hr : rr.rdata = slice m o rr.rdata.length) (hd : WellFormedName m o ls (o + rr.rdata.length)) :
+    typedSpec m (rr, o) = some (.ptr rr.name (dottedName ls) rr.ttl) := typed_ptr m rr o ls ht hr hd
 theorem N2_typed_mx (m : Bytes) (rr : RR) (o : Nat) (ls : List Bytes) (pref : Nat) (ht : rr.type = 15)
     (hr : rr.rdata = slice m o rr.rdata.length) (hp : rd16 rr.rdata 0 = .ok pref) (hlen : 2 < rr.rdata.length)
-    (hd : WellFormedName m (o + 2) ls (o + rr.rdata.length)) (hne : ls ≠ [] ∨ m[o + 2]? = some 0) :
-    typedSpec m (rr, o) = some (.mx rr.name pref (dottedName ls) rr.ttl) := typed_mx m rr o ls pref ht hr hp hlen hd hne
+    (hd : WellFormedName m (o + 2) ls (o + rr.rdata.length)) :
+    typedSpec m (rr, o) = some (.mx rr.name pref (dottedName ls) rr.ttl) := typed_mx m rr o ls pref ht hr hp hlen hd
 theorem N2_typed_srv (m : Bytes) (rr : RR) (o : Nat) (ls : List Bytes) (prio weight port : Nat) (ht : rr.type = 33)
     (hr : rr.rdata = slice m o rr.rdata.length) (h0 : rd16 rr.rdata 0 = .ok prio) (h2 : rd16 rr.rdata 2 = .ok weight)
     (h4 : rd16 rr.rdata 4 = .ok port) (hlen : 6 < rr.rdata.length)
-    (hd : WellFormedName m (o + 6) ls (o + rr.rdata.length)) (hne : ls ≠ [] ∨ m[o + 6]? = some 0) :
+    (hd : WellFormedName m (o + 6) ls (o + rr.rdata.length)) :
     typedSpec m (rr, o) = some (.srv rr.name prio weight port (dottedName ls) rr.ttl) :=
-  typed_srv m rr o ls prio weight port ht hr h0 h2 h4 hlen hd hne
+  typed_srv m rr o ls prio weight port ht hr h0 h2 h4 hlen hd
 
 /-- non-vacuity: CNAME and PTR whose RDATA is `C0 00` → `a`; the null MX `0 .` of RFC 7505; an SRV record with target `.` -/
 example : typedSpec [1, 97, 0, 192, 0] ({ name := [], type := 5, cls := 1, ttl := 9, rdlength := 2, rdata := [192, 0] }, 3) =
@@ -308,19 +333,87 @@ example : typedSpec [1, 97, 0, 192, 0] ({ name := [], type := 5, cls := 1, ttl :
   have h0 : DenotesH [1, 97, 0, 192, 0] 0 [[97]] 3 0 :=
     DenotesH.label (b := 1) (by decide) (by decide) (by decide) (by decide) (DenotesH.root (by decide))
   exact N2_typed_cname _ _ 3 [[97]] rfl (by decide)
-    ⟨1, DenotesH.ptr (b := 192) (b2 := 0) (by decide) (by decide) (by decide) h0, by decide, by decide⟩ (Or.inl (by decide))
+    ⟨1, DenotesH.ptr (b := 192) (b2 := 0) (by decide) (by decide) (by decide) h0, by decide, by decide⟩
 example : typedSpec [1, 97, 0, 192, 0] ({ name := [], type := 12, cls := 1, ttl := 9, rdlength := 2, rdata := [192, 0] }, 3) =
     some (.ptr [] (dottedName [[97]]) 9) := by
   have h0 : DenotesH [1, 97, 0, 192, 0] 0 [[97]] 3 0 :=
     DenotesH.label (b := 1) (by decide) (by decide) (by decide) (by decide) (DenotesH.root (by decide))
   exact N2_typed_ptr _ _ 3 [[97]] rfl (by decide)
-    ⟨1, DenotesH.ptr (b := 192) (b2 := 0) (by decide) (by decide) (by decide) h0, by decide, by decide⟩ (Or.inl (by decide))
+    ⟨1, DenotesH.ptr (b := 192) (b2 := 0) (by decide) (by decide) (by decide) h0, by decide, by decide⟩
 example : typedSpec [0, 0, 0] ({ name := [], type := 15, cls := 1, ttl := 9, rdlength := 3, rdata := [0, 0, 0] }, 0) =
     some (.mx [] 0 (dottedName []) 9) :=
-  N2_typed_mx _ _ 0 [] 0 rfl (by decide) rfl (by decide) ⟨0, DenotesH.root (by decide), by decide, by decide⟩ (Or.inr (by decide))
+  N2_typed_mx _ _ 0 [] 0 rfl (by decide) rfl (by decide) ⟨0, DenotesH.root (by decide), by decide, by decide⟩
 example : typedSpec [0, 1, 0, 2, 0, 3, 0] ({ name := [], type := 33, cls := 1, ttl := 9, rdlength := 7, rdata := [0, 1, 0, 2, 0, 3, 0] }, 0) =
     some (.srv [] 1 2 3 (dottedName []) 9) :=
-  N2_typed_srv _ _ 0 [] 1 2 3 rfl (by decide) rfl rfl rfl (by decide) ⟨0, DenotesH.root (by decide), by decide, by decide⟩ (Or.inr (by decide))
+  N2_typed_srv _ _ 0 [] 1 2 3 rfl (by decide) rfl rfl rfl (by decide) ⟨0, DenotesH.root (by decide), by decide, by decide⟩
+
+/-- **N2 (typed SOA).** MNAME and RNAME each compressed in any way the reference relation admits (root, pointer to root,
+chains, forward pointers), followed by exactly the five 32-bit numbers: the typed SOA record is exactly those two names and
+those five numbers — in particular MINIMUM, on which the negative-caching TTL rests (`N5_negative_ttl_le_soa`). -/
+theorem N2_typed_soa (m : Bytes) (rr : RR) (o : Nat) (ls1 ls2 : List Bytes) (n1 n2 : Nat)
+    (serial refresh retry expire minimum : Nat) (ht : rr.type = 6)
+    (hr : rr.rdata = slice m o rr.rdata.length)
+    (hd1 : WellFormedName m o ls1 (o + n1)) (hd2 : WellFormedName m (o + n1) ls2 (o + n2))
+    (hlen : rr.rdata.length = n2 + 20)
+    (h0 : rd32 rr.rdata n2 = .ok serial) (h1 : rd32 rr.rdata (n2 + 4) = .ok refresh)
+    (h2 : rd32 rr.rdata (n2 + 8) = .ok retry) (h3 : rd32 rr.rdata (n2 + 12) = .ok expire)
+    (h4 : rd32 rr.rdata (n2 + 16) = .ok minimum) :
+    typedSpec m (rr, o) = some (.soa rr.name (dottedName ls1) (dottedName ls2) serial refresh retry expire minimum rr.ttl) :=
+  typed_soa m rr o ls1 ls2 n1 n2 serial refresh retry expire minimum ht hr hd1 hd2 hlen h0 h1 h2 h3 h4
+
+/-- the same with the five numbers given as values: RDATA = (two names) ++ be32 serial ++ … ++ be32 minimum -/
+theorem N2_typed_soa_values (m : Bytes) (rr : RR) (o : Nat) (ls1 ls2 : List Bytes) (n1 n2 : Nat) (pre : Bytes)
+    (serial refresh retry expire minimum : Nat) (ht : rr.type = 6)
+    (hr : rr.rdata = slice m o rr.rdata.length)
+    (hd1 : WellFormedName m o ls1 (o + n1)) (hd2 : WellFormedName m (o + n1) ls2 (o + n2))
+    (hpre : pre.length = n2)
+    (hrd : rr.rdata = pre ++ be32 serial ++ be32 refresh ++ be32 retry ++ be32 expire ++ be32 minimum)
+    (b0 : serial < 4294967296) (b1 : refresh < 4294967296) (b2 : retry < 4294967296)
+    (b3 : expire < 4294967296) (b4 : minimum < 4294967296) :
+    typedSpec m (rr, o) = some (.soa rr.name (dottedName ls1) (dottedName ls2) serial refresh retry expire minimum rr.ttl) :=
+  typed_soa_values m rr o ls1 ls2 n1 n2 pre serial refresh retry expire minimum ht hr hd1 hd2 hpre hrd b0 b1 b2 b3 b4
+
+/-- non-vacuity: MNAME `a` written out, RNAME a pointer to it, MINIMUM = 2³²−1 -/
+example : typedSpec ([1, 97, 0, 192, 0] ++ be32 1 ++ be32 2 ++ be32 3 ++ be32 4 ++ be32 4294967295)
+    ({ name := [], type := 6, cls := 1, ttl := 9, rdlength := 25,
+       rdata := [1, 97, 0, 192, 0] ++ be32 1 ++ be32 2 ++ be32 3 ++ be32 4 ++ be32 4294967295 }, 0) =
+    some (.soa [] (dottedName [[97]]) (dottedName [[97]]) 1 2 3 4 4294967295 9) := by
+  have h0 : DenotesH ([1, 97, 0, 192, 0] ++ be32 1 ++ be32 2 ++ be32 3 ++ be32 4 ++ be32 4294967295) 0 [[97]] 3 0 :=
+    DenotesH.label (b := 1) (by decide) (by decide) (by decide) (by decide) (DenotesH.root (by decide))
+  exact N2_typed_soa_values _ _ 0 [[97]] [[97]] 3 5 [1, 97, 0, 192, 0] 1 2 3 4 4294967295 rfl (by decide)
+    ⟨0, h0, by decide, by decide⟩
+    ⟨1, DenotesH.ptr (b := 192) (b2 := 0) (by decide) (by decide) (by decide) h0, by decide, by decide⟩
+    rfl rfl (by decide) (by decide) (by decide) (by decide) (by decide)
+
+/-- **N2 (typed NAPTR).** ORDER, PREFERENCE, the three character strings FLAGS / SERVICES / REGEXP (arbitrary octets, each
+shorter than 256) and the REPLACEMENT name compressed in any way: the typed NAPTR record is exactly those. -/
+theorem N2_typed_naptr (m : Bytes) (rr : RR) (o : Nat) (ls : List Bytes) (order pref : Nat)
+    (flags service regexp : Bytes) (tail : Bytes) (ht : rr.type = 35)
+    (hr : rr.rdata = slice m o rr.rdata.length)
+    (ho : order < 65536) (hp : pref < 65536)
+    (hf : flags.length < 256) (hsv : service.length < 256) (hre : regexp.length < 256)
+    (hrd : rr.rdata = be16 order ++ be16 pref ++ (b8 flags.length :: flags) ++ (b8 service.length :: service) ++
+      (b8 regexp.length :: regexp) ++ tail)
+    (htail : 0 < tail.length)
+    (hd : WellFormedName m (o + (7 + flags.length + service.length + regexp.length)) ls (o + rr.rdata.length)) :
+    typedSpec m (rr, o) = some (.naptr rr.name order pref flags service regexp (dottedName ls) rr.ttl) :=
+  typed_naptr m rr o ls order pref flags service regexp tail ht hr ho hp hf hsv hre hrd htail hd
+
+/-- non-vacuity: order 10, preference 20, flags "S", empty services and regexp, replacement `.` -/
+example :
+    typedSpec (be16 10 ++ be16 20 ++ [1, 83] ++ [0] ++ [0] ++ [0])
+      ({ name := [], type := 35, cls := 1, ttl := 9, rdlength := 9, rdata := be16 10 ++ be16 20 ++ [1, 83] ++ [0] ++ [0] ++ [0] }, 0) =
+      some (.naptr [] 10 20 [83] [] [] (dottedName []) 9) :=
+  N2_typed_naptr _ _ 0 [] 10 20 [83] [] [] [0] rfl (by decide) (by decide) (by decide) (by decide) (by decide) (by decide) (by decide)
+    (by decide) ⟨0, DenotesH.root (by decide), by decide, by decide⟩
+
+/-- generated-facts conformance (tripwire): the record-type numbers the model's `switch` is written with are the values of
+`enum class DnsType`, and `IN` = 1 -/
+theorem N2_gen_type_numbers :
+    Gen.Dns.types.lookup "A" = some 1 ∧ Gen.Dns.types.lookup "AAAA" = some 28 ∧ Gen.Dns.types.lookup "SRV" = some 33 ∧
+    Gen.Dns.types.lookup "NAPTR" = some 35 ∧ Gen.Dns.types.lookup "CNAME" = some 5 ∧ Gen.Dns.types.lookup "MX" = some 15 ∧
+    Gen.Dns.types.lookup "TXT" = some 16 ∧ Gen.Dns.types.lookup "PTR" = some 12 ∧ Gen.Dns.types.lookup "SOA" = some 6 ∧
+    Gen.Dns.types.lookup "NS" = some 2 ∧ Gen.Dns.classes.lookup "IN" = some 1 := by decide
 
 theorem N2_typed_none (m : Bytes) (rr : RR) (o : Nat) (ht : Gen.Dns.typedTypes.contains rr.type = false) :
     typedSpec m (rr, o) = none := typed_none m rr o ht
@@ -375,6 +468,98 @@ theorem N6_question_checked_refuted : ¬ N6_question_checked_statement := by
     (by intro hc; cases hc) _ rfl
   cases h1
 
+/-! ## N6 (TCP) — length-prefix reassembly in `handleTcpData`, and the complete data callbacks -/
+
+/-- **N6t (every segmentation).** Take any list of messages, each non-empty, at most 65535 bytes and within the configured
+buffer limit, written to the stream as RFC 1035 §4.2.2 prescribes (two-byte length, then the message).  However the stream
+is cut into reads — inside a length prefix, inside a message, several messages in one read, empty reads — `handleTcpData`
+hands `processResponse` EXACTLY those messages, in order, each with exactly its own bytes, never closes the session and ends
+with an empty buffer; provided no single read trips the growth check `buffer.size() + data.size() > maxTcpBufferSize`
+(`Fits`, which is a statement about the reads, not about the messages; `N6_tcp_segmentation_small` replaces it by "the whole
+stream is no longer than the limit"). -/
+theorem N6_tcp_segmentation (cap : Nat) (ms : List Bytes) (hv : DnsTcp.ValidMsgs cap ms) (ss : List Bytes)
+    (hflat : ss.flatten = DnsTcp.tcpStream ms) (hfit : DnsTcp.Fits cap [] ss) :
+    DnsTcp.tcpFeed cap [] ss = (ms.map DnsTcp.Ev.msg, []) :=
+  DnsTcp.tcpFeed_segmentation cap ms hv ss hflat hfit
+
+theorem N6_tcp_segmentation_small (cap : Nat) (ms : List Bytes) (hv : DnsTcp.ValidMsgs cap ms) (ss : List Bytes)
+    (hflat : ss.flatten = DnsTcp.tcpStream ms) (hsmall : (DnsTcp.tcpStream ms).length ≤ cap) :
+    DnsTcp.tcpFeed cap [] ss = (ms.map DnsTcp.Ev.msg, []) :=
+  DnsTcp.tcpFeed_segmentation_small cap ms hv ss hflat hsmall
+
+/-- non-vacuity: two messages cut inside the first length prefix and with the second message sharing a read with the tail of the first -/
+example : DnsTcp.tcpFeed 64 [] [[0], [3, 1, 2], [3, 0, 1, 9]] = ([.msg [1, 2, 3], .msg [9]], []) :=
+  N6_tcp_segmentation_small 64 [[1, 2, 3], [9]]
+    (by intro m hm; simp only [List.mem_cons, List.mem_nil_iff, or_false] at hm; rcases hm with rfl | rfl <;> decide)
+    [[0], [3, 1, 2], [3, 0, 1, 9]] (by decide) (by decide)
+
+/-- **N6t (exact size, no over-read).** Whatever is in the buffer, a message handed out by one round of the loop is exactly
+the `len` bytes behind the two-byte prefix that announces `len`, lies completely inside the buffer, `0 < len ≤ 65535`,
+`len ≤ maxTcpBufferSize`, and exactly `2 + len` bytes are popped. -/
+theorem N6_tcp_exact_size (cap : Nat) (d : Bytes) (a : DnsTcp.Ev) (n : Nat) (h : DnsTcp.frameAt cap d = .frame a n) :
+    ∃ b0 b1 rest, d = b0 :: b1 :: rest ∧ n = 2 + (b0.toNat * 256 + b1.toNat) ∧
+      a = .msg (rest.take (b0.toNat * 256 + b1.toNat)) ∧ b0.toNat * 256 + b1.toNat ≤ rest.length ∧
+      0 < b0.toNat * 256 + b1.toNat ∧ b0.toNat * 256 + b1.toNat ≤ cap :=
+  DnsTcp.frameAt_frame_inv cap d a n h
+
+/-- the loop of `handleTcpData` IS the generic greedy drain of `Common/Framing` over the stable parser `frameAt` (stable on
+every buffer: its verdict depends on the two prefix bytes and on whether enough bytes are present) -/
+theorem N6_tcp_loop_is_drain (cap f : Nat) (d : Bytes) :
+    DnsTcp.tcpLoop cap f d = ((Framing.drainF (DnsTcp.tcpParser cap) f d).1, DnsTcp.carryBuf (Framing.drainF (DnsTcp.tcpParser cap) f d).2) :=
+  DnsTcp.tcpLoop_eq_drainF' cap f d
+
+/-- a zero length prefix, and a read that would grow the buffer beyond the limit, clear the buffer and close the session -/
+theorem N6_tcp_zero_length_closes (cap : Nat) (rest : Bytes) (h : 2 + rest.length ≤ cap) :
+    DnsTcp.tcpData cap [] (0 :: 0 :: rest) = ([.close], []) := DnsTcp.tcpData_zero_length_closes cap rest h
+theorem N6_tcp_overflow_closes (cap : Nat) (buf data : Bytes) (h : buf.length + data.length > cap) :
+    DnsTcp.tcpData cap buf data = ([.close], []) := DnsTcp.tcpData_overflow_closes cap buf data h
+
+/-- **N6t (containment at the callbacks).** For ARBITRARY bytes, session ids, buffers, session tables and pending sets the
+complete data callbacks `handleTcpData` and `handleUdpData` end normally. -/
+theorem N6_tcp_contained (cap : Nat) (st : DnsTcp.TSt) (sid : Nat) (data : Bytes) : ∃ out, DnsTcp.handleTcpData cap st sid data = .ok out :=
+  DnsTcp.handleTcpData_total cap st sid data
+theorem N6_udp_contained (st : DnsTcp.TSt) (sid : Nat) (data : Bytes) : ∃ out, DnsTcp.handleUdpData st sid data = .ok out :=
+  DnsTcp.handleUdpData_total st sid data
+
+/-- **N6f (truncated UDP answer, transport mode Both).** Containment for arbitrary bytes, and: a truncated answer (TC = 1) for a
+pending query that has not fallen back yet completes NOTHING — the pending set is unchanged, the query is marked and re-sent
+over TCP exactly once (a second truncated answer then completes it the normal way: the flag is set). -/
+theorem N6_udp_both_contained (st : DnsTcp.TSt) (sid : Nat) (data : Bytes) : ∃ out, DnsTcp.handleUdpDataBoth st sid data = .ok out :=
+  DnsTcp.handleUdpDataBoth_total st sid data
+theorem N6_tc_falls_back_once (st : DnsTcp.TSt) (sid s : Nat) (data : Bytes) (r : Result) (hs : DnsTcp.lookup sid st.sessions = some s)
+    (hp : parse data = .ok r) (htc : r.header.tc = true) (hpend : st.pending.contains (r.header.id, s) = true)
+    (hfb : st.fallback.contains (r.header.id, s) = false) :
+    ∃ t st', DnsTcp.handleUdpDataBoth st sid data = .ok ([.resent r.header.id s t], st') ∧ st'.pending = st.pending ∧
+      st'.fallback = (r.header.id, s) :: st.fallback :=
+  DnsTcp.tc_falls_back_once st sid s data r hs hp htc hpend hfb
+
+set_option maxRecDepth 100000 in
+/-- non-vacuity: id 0x1234 pending at server 0, session 5 belongs to server 0, the 12-byte answer has TC set (flags 0x8380) -/
+example : ∃ t st', DnsTcp.handleUdpDataBoth { sessions := [(5, 0)], pending := [(4660, 0)] } 5 [18, 52, 131, 128, 0, 0, 0, 0, 0, 0, 0, 0] =
+    .ok ([.resent 4660 0 t], st') ∧ st'.pending = [(4660, 0)] ∧ st'.fallback = [(4660, 0)] := by
+  obtain ⟨t, st', h1, h2, h3⟩ := N6_tc_falls_back_once { sessions := [(5, 0)], pending := [(4660, 0)] } 5 0
+    [18, 52, 131, 128, 0, 0, 0, 0, 0, 0, 0, 0] { header := ⟨4660, true, 0, false, true, true, true, 0, 0, 0, 0, 0, 0⟩ } rfl rfl rfl rfl rfl
+  exact ⟨t, st', h1, h2, h3⟩
+
+/-- **N6s (server and port are part of the key).** A response arriving from server:port `s` leaves every pending query that
+was sent to ANOTHER server:port pending, whatever its 16-bit id, and never adds one. -/
+theorem N6_other_servers_untouched (p p' : List (Nat × Nat)) (s : Nat) (d : Bytes) (c : Option DnsTransport.Completion)
+    (h : DnsTcp.respond p s d = .ok (c, p')) : (∀ q ∈ p, q.2 ≠ s → q ∈ p') ∧ (∀ q ∈ p', q ∈ p) :=
+  ⟨DnsTcp.respond_other_servers h, DnsTcp.respond_subset h⟩
+
+set_option maxRecDepth 100000 in
+/-- non-vacuity: id 0x1234 is pending at servers 0 and 1; the answer from server 1 completes only that one -/
+example : ∃ c, DnsTcp.respond [(4660, 0), (4660, 1)] 1 [18, 52, 129, 128, 0, 0, 0, 0, 0, 0, 0, 0] = .ok (c, [(4660, 0)]) := ⟨_, rfl⟩
+
+/-- generated-facts conformance (tripwire, `rfl`): the reassembly steps of `handleTcpData` in source order (exact-size copy
+`buffer.begin() + 2 … + 2 + messageLength`, `processResponse(messageData.data(), messageLength, …)`, pop of `2 + messageLength`),
+the 65535 limit, and the members compared by the pending-query key and by the cache key -/
+theorem N6_gen_tcp_shape :
+    Gen.Dns.tcpSkeleton = ["buffer-of-session", "growth-check-close", "append", "loop-while-2", "length-be16", "zero-or-max-close", "cap-close",
+      "incomplete-break", "session-lookup", "unknown-session-pop-continue", "copy-exact", "process-exact", "pop-exact"] ∧
+    Gen.Dns.tcpMaxMessage = 65535 ∧ Gen.Dns.queryKeyFields = ["queryId", "server", "port"] ∧
+    Gen.Dns.cacheKeyFields = ["qname", "qtype", "qclass"] := ⟨rfl, rfl, rfl, rfl⟩
+
 /-! ## N5 — the cache honours TTL, for every history -/
 
 /-- **N5 (served only for the same question and only while fresh).** Take ANY history of put / putNegative (explicit or
@@ -403,6 +588,28 @@ theorem N5_put_ttl_is_minimum (r : Result) (dflt : Nat) (x : Nat)
     (hx : x ∈ r.answers.map (·.ttl) ++ r.authority.map (·.ttl) ++ r.additional.map (·.ttl) ++ r.typed.map (·.ttl)) :
     resultTtl r dflt ≤ x :=
   resultTtl_le r dflt x hx
+
+/-- **N5n (negative-caching TTL).** When the response carries a typed SOA record, the TTL `putNegative(question, result,
+errorMessage)` uses is at most SOA.MINIMUM and at most the TTL of the SOA record itself (RFC 2308 §5) — whatever else the
+response holds.  Together with `N2_typed_soa` (a well-formed SOA always HAS its typed record, with exactly its MINIMUM) and
+`N5_served_only_fresh` this is the negative-TTL clause end to end. -/
+theorem N5_negative_ttl_le_soa (r : Result) (d mn ttl : Nat) (h : firstSoa r.typed = some (mn, ttl)) :
+    negativeTtl r d ≤ mn ∧ negativeTtl r d ≤ ttl := by
+  simp only [negativeTtl, h]
+  exact ⟨Nat.min_le_left _ _, Nat.min_le_right _ _⟩
+
+/-- the fallback, stated: ONLY when no typed SOA exists (its RDATA was malformed, so MINIMUM is unknown — a well-formed SOA
+always has one by `N2_typed_soa`) the TTL is the raw TTL of the first SOA record of the authority section, else the default -/
+theorem N5_negative_ttl_fallback (r : Result) (d : Nat) (h : firstSoa r.typed = none) :
+    (∀ ttl, firstSoaRaw r.authority = some ttl → negativeTtl r d = ttl) ∧
+    (firstSoaRaw r.authority = none → negativeTtl r d = d % 4294967296) := by
+  constructor
+  · intro ttl h2; simp only [negativeTtl, h, h2]
+  · intro h2; simp only [negativeTtl, h, h2]
+
+/-- non-vacuity: MINIMUM 5, SOA TTL 3600 → 5; and the fallback really can exceed any MINIMUM the broken RDATA may have meant -/
+example : negativeTtl ({ header := ⟨7, true, 0, false, false, true, true, 0, 3, 0, 0, 1, 0⟩, typed := [.soa [] [] [] 1 2 3 4 5 3600] } : Result) 300 = 5 := by decide
+example : negativeTtl ({ header := ⟨7, true, 0, false, false, true, true, 0, 3, 0, 0, 1, 0⟩, authority := [{ name := [], type := 6, cls := 1, ttl := 3600, rdlength := 0, rdata := [] }] } : Result) 300 = 3600 := by decide
 
 /-- **N5c (key normalisation).** Two questions share a cache key iff type and class agree and the names agree after
 ASCII lower-casing. -/
